@@ -140,8 +140,13 @@ func WithVars(vars map[string]any) QueryOption {
 	}
 }
 
-func New(data Map, query string, options ...QueryOption) (*Query, error) {
-	q := &Query{
+func New(data Map, query string, options ...QueryOption) (q *Query, err error) {
+	defer func() {
+		if r := recover(); r != nil {
+			q, err = nil, recovered(r)
+		}
+	}()
+	q = &Query{
 		offsetDefinition:    -1,
 		limitDefinition:     -1,
 		groupDefinition:     make(GroupDefinition),
@@ -1879,6 +1884,11 @@ func (query *Query) execAndPostProcess() (result any, err error) {
 }
 
 func (query *Query) Exec() (result []any, err error) {
+	defer func() {
+		if r := recover(); r != nil {
+			result, err = nil, recovered(r)
+		}
+	}()
 	rs, err := query.execAndPostProcess()
 	if err != nil {
 		return nil, err
@@ -1887,6 +1897,12 @@ func (query *Query) Exec() (result []any, err error) {
 		return slice, nil
 	}
 	return []any{rs}, nil
+}
+
+// recovered turns a panic raised while building or evaluating a query into
+// the error New/Exec return
+func recovered(r any) error {
+	return EXPECTATION_FAILED.Extend(fmt.Sprintf("unexpected failure: %v", r))
 }
 
 func (query *Query) IsDual() bool {
